@@ -85,6 +85,8 @@ def run(chk, repo, tier):
     B3 = chk.rule('B3', 'printer tokens parse back to the same class; n-ary operands all printed; lower precedence '
                         'operands parenthesised', floor=10)
     B4 = chk.rule('B4', 'compartment numbering sites use the shared compartment order', floor=4)
+    from rules import C02b
+    C02b.run(chk, repo)
 
     um = repo.module(f'{NM}.update')
     am = repo.module(f'{NM}.advan')
